@@ -87,7 +87,7 @@ theorem txAcceptedAux_good {K : Keys} {W : Tx → Prop} {rank : TxId → Nat} {u
     ChainOK u0 ν s → PGoodP K W u0 ν s → PGoodP K W u0 ν (txAcceptedAux K mf fuel s recs d) := by
   intro fuel
   induction fuel with
-  | zero => intro s recs d _ h; exact h
+  | zero => intro s recs d _ h hp; cases hp
   | succ n ih =>
     intro s recs d hc h
     unfold txAcceptedAux
@@ -151,24 +151,6 @@ theorem submitNet_good {K : Keys} {W : Tx → Prop} {rank : TxId → Nat} {u0 : 
       PGoodP.lift e2 (fun g => processTx_good U mf s t _ hc g ht (by intro hu; cases hu)) h
     split
     · exact txAccepted_good U mf _ _ (hc.of_env e2) g2
-    · exact g2
-
-theorem submitLocal_good {K : Keys} {W : Tx → Prop} {rank : TxId → Nat} {u0 : UT} {ν : OutPoint → Nat}
-    (U : Univ2 K W rank u0 ν) (mf : Nat) (s : State) (t : Tx) (hc : ChainOK u0 ν s)
-    (h : PGoodP K W u0 ν s) (ht : W t) : PGoodP K W u0 ν (submitLocal K mf s t).2 := by
-  unfold submitLocal
-  dsimp only
-  have e1 := rejDeleteByIdx_env K s (K.bidx t.id)
-  have g1 : PGoodP K W u0 ν (rejDeleteByIdx K s (K.bidx t.id)) :=
-    PGoodP.lift e1 (fun g => g.frame (rejDeleteByIdx_frame K W s _)) h
-  have c1 := hc.of_env e1
-  split
-  · exact g1
-  · have e2 := processTx_env K mf (rejDeleteByIdx K s (K.bidx t.id)) t { trusted := true, loc := true }
-    have g2 : PGoodP K W u0 ν (processTx K mf (rejDeleteByIdx K s (K.bidx t.id)) t { trusted := true, loc := true }).2 :=
-      PGoodP.lift e2 (fun g => processTx_good U mf _ t _ c1 g ht (by intro hu; cases hu)) g1
-    split
-    · exact txAccepted_good U mf _ _ (c1.of_env e2) g2
     · exact g2
 
 /-! ### Delete(with_children) -/
